@@ -385,7 +385,7 @@ class NMAP(Application, discriminator="nmap"):
             if self.software_manager.node.ip_is_network_interface(ip_address=ip_address):
                 continue
             for protocol in target_protocol:
-                for port in set(target_port):
+                for port in dict.fromkeys(target_port):  # (request order, duplicates once)
                     port_open = self._check_port_open_on_ip_address(ip_address=ip_address, port=port, protocol=protocol)
                     if port_open:
                         if show:
